@@ -1,0 +1,124 @@
+//go:build verif
+
+// Contracts for the verification machinery in /verif (comment-only; no code).
+
+package mbapp
+
+//@ type collector
+//@   invariant partCount == bitMap.n && 0 <= bitMap.n && 8 * len(bitMap.buf) >= bitMap.n
+//@   invariant arr(bitMap.buf) != arr(buf)
+
+// ---- fragment layer: collectors are keyed by (remote address, group id) ---------------------------
+
+//@ func (*fragLayer).getCollector
+//@   noframe
+//@   requires fl.collectors != nil && mapvals_inv(fl.collectors)
+//@   ensures ret1 == nil && ret0 != nil && inv(ret0)
+//@   ensures mapvals_inv(fl.collectors)
+//@   ensures old(cid in fl.collectors) ==> ret0 == old(fl.collectors[cid])
+//@   ensures !old(cid in fl.collectors) ==> fresh(ret0) && ret0.partCount == partCount && len(ret0.buf) == totalSize
+//@   ensures fl.collectors[cid] == ret0 && (cid in fl.collectors)
+//@
+//@ func (*fragLayer).handlePart
+//@   noframe
+//@   requires fl.collectors != nil && mapvals_inv(fl.collectors)
+//@   fnspec String:
+//@     pure
+//@   before call fn#0:
+//@     assert partCount < 2 && arg0 == body
+//@   before call (*fragLayer).getCollector:
+//@     assert arg1.GroupID == gid && arg2 == partCount && arg3 == totalSize
+//@   before call (*collector).addPart:
+//@     assert arg1 == partIndex && arg2 == body
+
+// ---- swarm: dispatch of an incoming packet ------------------------------------------------------
+
+//@ func (*Swarm).handleMessage
+//@   noframe
+//@   requires s.fragLayer != nil && s.fragLayer.collectors != nil && mapvals_inv(s.fragLayer.collectors)
+//@   before call (*fragLayer).handlePart:
+//@     assert ifaceval(arg1) == src
+//@     assert arg2.Counter == be32at(hdr, 8) && arg2.OriginTime == be32at(hdr, 4)
+//@     assert arg3 == hdr[16]*256 + hdr[17] && arg4 == hdr[18]*256 + hdr[19] && arg5 == be32at(hdr, 12)
+//@     assert arg6 == body && len(hdr) == 24 && arg5 <= uint32(s.mtu)
+//@
+//@ func (*Swarm).handleMessage$1
+//@   inline
+//@   requires len(hdr) == 24 && s != nil
+//@   before call (*Swarm).handleAskReply:
+//@     assert arg2 == src && arg3 == dst && arg4 == gid && arg6 == buf && arg5 == hdr[3]
+//@   before call (*Swarm).handleAskRequest:
+//@     assert arg2 == src && arg3 == dst && arg4 == gid && arg5 == buf
+//@   before call (*Swarm).handleTell:
+//@     assert arg2 == src && arg3 == dst && arg4 == buf
+//@
+//@ func (*Swarm).handleTell
+//@   noframe
+//@   before call (*TellHub).Deliver:
+//@     assert arg2.Src == src && arg2.Dst == dst && arg2.Payload == body
+
+// ---- asks ---------------------------------------------------------------------------------------
+
+// ---- sending: header fields hold what was written, parts are consecutive and fit the inner MTU ----
+
+//@ spec func mtuOf(x iface) int
+//@
+//@ func (*Swarm).MTU
+//@   pure
+//@   fnspec MTU:
+//@     pure
+//@   after call MTU:
+//@     assume res0 == mtuOf(s.inner)
+//@   ensures mtuOf(s.inner) - 24 < 1 ==> ret == 0 - 1
+//@   ensures mtuOf(s.inner) - 24 >= 1 ==> ret == min(s.mtu, 65535 * (mtuOf(s.inner) - 24))
+//@
+//@ func (*Swarm).Tell
+//@   noframe
+//@   fnspec Deadline:
+//@     pure
+//@   ensures old(sumlen(lens(msg), len(msg)) > s.mtu) ==> ret != nil
+//@   before call (*Swarm).send:
+//@     assert sumlen(lens(arg3.m), len(arg3.m)) <= s.mtu && arg3.m == msg && !arg3.isAsk && !arg3.isReply
+//@
+//@ func (*Swarm).Ask
+//@   noframe
+//@   fnspec Deadline:
+//@     pure
+//@   fnspec String:
+//@     pure
+//@   ensures old(sumlen(lens(req), len(req)) > s.mtu) ==> ret1 != nil
+//@   before call (*Swarm).send:
+//@     assert sumlen(lens(arg3.m), len(arg3.m)) <= s.mtu && arg3.m == req && arg3.isAsk && !arg3.isReply
+//@
+//@ func (*Swarm).send
+//@   noframe
+//@   fuel 3
+//@   requires sumlen(lens(params.m), len(params.m)) <= 65535 * (mtuOf(s.inner) - 24) && mtuOf(s.inner) - 24 >= 1
+//@   fnspec Tell:
+//@     pure
+//@   fnspec MTU:
+//@     pure
+//@   after call MTU:
+//@     assume res0 == mtuOf(s.inner)
+//@   before call Tell#0:
+//@     assert totalSize + 24 <= mtu && len(arg3) == 1 + len(params.m)
+//@     assert len(arg3[0]) == 24 && arg3[0][18]*256 + arg3[0][19] == partCount && arg3[0][16]*256 + arg3[0][17] == 0
+//@     assert be32at(arg3[0], 12) == uint32(totalSize) && be32at(arg3[0], 8) == params.counter && be32at(arg3[0], 4) == params.originTime
+//@     assert (arg3[0][0] >= 128 <==> params.isAsk) && ((arg3[0][0] / 64) % 2 == 1 <==> params.isReply) && arg3[0][3] == params.errCode
+//@   loop 0:
+//@     invariant 0 <= i && i <= partCount
+//@     invariant 2 <= partCount && partCount <= 65535 && partSize >= 1
+//@     invariant (partCount - 1) * partSize < totalSize && totalSize <= partCount * partSize && len(whole) == totalSize
+//@
+//@ func (*Swarm).send$1
+//@   inline
+//@   before call Tell:
+//@     assert len(arg3) == 2 && len(arg3[0]) == 24 && len(arg3[1]) <= partSize
+//@     assert arg3[1] == whole[start:end] && start == i * partSize && (i < partCount - 1 ==> end == start + partSize) && (i == partCount - 1 ==> end == len(whole))
+//@     assert arg3[0][16]*256 + arg3[0][17] == i && arg3[0][18]*256 + arg3[0][19] == partCount
+
+// ---- asks ---------------------------------------------------------------------------------------
+
+//@ func extractErrorCode
+//@   ensures n >= 0 ==> ret0 == 0 && ret1 == n
+//@   ensures n < 0 ==> ret0 != 0 && ret1 == 0
